@@ -53,6 +53,9 @@ def show(t):
     if k == 'try':
         return show(t[1]) + '?'
     if k == 'macro':
+        if t[1] in ('assert', 'debug_assert') and t[2]:
+            import canon  # the asserted condition in its canonical spelling
+            return '%s!(%s)' % (t[1], ', '.join([canon.bstr(t[2][0])] + [show(a) for a in t[2][1:]]))
         return '%s!(%s)' % (t[1], ', '.join(show(a) for a in t[2]))
     if k == 'closure':
         return '|%s| %s' % (', '.join(n for n, _ in t[2]), show(t[3]))
